@@ -49,7 +49,7 @@ MUTANTS = [
     ("array-from-args-offset", {"C01": "A2.variadic"}, [(NV, "return lambda g: g[argnum - 2]", "return lambda g: g[argnum - 1]")]),
     ("make-sequence-jvp-offset", {"C12": "A2.variadic"}, [(BU, "return container_untake(g, argnum - 1, vspace(ans))", "return container_untake(g, argnum - 2, vspace(ans))")]),
     ("extend-left-uses-right-layout", {"C12": "A2.layout"}, [(BU, "return lambda g: g[len(elts) :] if argnum == 0 else g[argnum - 1]", "return lambda g: g[: len(seq)] if argnum == 0 else g[len(seq) + argnum - 1]")]),
-    ("outer-loses-match-complex", {"C05": "A4.match", "C09": "A4.match"}, [(NV, "lambda ans, a, b: lambda g: match_complex(a, anp.dot(g, b.T)),", "lambda ans, a, b: lambda g: anp.dot(g, b.T),")]),
+    ("outer-loses-match-complex", {"C05": "A4.match", "C09": "A4.match"}, [(NV, "lambda ans, a, b: lambda g: match_complex(a, anp.reshape(anp.dot(g, anp.ravel(b)), anp.shape(a))),", "lambda ans, a, b: lambda g: anp.reshape(anp.dot(g, anp.ravel(b)), anp.shape(a)),")]),
     ("fft-loses-match-complex", {"C09": "A4.match", "C05": "A4.match"}, [(FF, "    return lambda g: match_complex(x, truncate_pad(fft_fun(g, *args, **kwargs), vs.shape))", "    return lambda g: truncate_pad(fft_fun(g, *args, **kwargs), vs.shape)")]),
     ("inner-loses-match-complex", {"C05": "A4.match", "C09": "A4.match"}, [(NV, "        return lambda G: match_complex(A, tensordot_adjoint_0(B, G, axes, A_ndim, B_ndim))\n    elif argnum == 1:", "        return lambda G: tensordot_adjoint_0(B, G, axes, A_ndim, B_ndim)\n    elif argnum == 1:")]),
     ("complex-covector-override-deleted", {"C09": "A4.vspace", "C13": "A4.vspace"}, [(NS, "    def _covector(self, x):\n        return np.conj(x)\n", "")]),
@@ -233,7 +233,7 @@ MUTANTS = [
     ("atleast-declared-linear-in-all-arguments", {"C02": "A1.lin"}, [(NJ, "defjvp(anp.atleast_1d, atleast_jvpmaker(anp.atleast_1d))", "def_linear(anp.atleast_1d)")]),
     ("einsum-list-format-unbroadcast-by-output-sublist", {"C05": "A3.einsum", "C01": "A3.einsum"}, [(NV, "            return unbroadcast_einsum(anp.einsum(g, *rest_of_ops), result_meta, operands[argnum + 1])", "            return unbroadcast_einsum(anp.einsum(g, *rest_of_ops), result_meta, operands[-1])")]),
     ("inner-product-in-fixed-double-precision", {"C13": "A9.pure"}, [(NS, "        return np.dot(np.ravel(x), np.ravel(y))", "        return np.dot(np.ravel(np.asarray(x, dtype=np.float64)), np.ravel(np.asarray(y, dtype=np.float64)))")]),
-    ("tril-vjp-ignores-k", {"C01": "A2.ignored", "C15": "A2.ignored"}, [(NV, "defvjp(anp.tril, lambda ans, x, k=0: lambda g: anp.tril(g, k=k))", "defvjp(anp.tril, lambda ans, x, k=0: lambda g: anp.tril(g))")]),
+    ("tril-vjp-ignores-k", {"C01": "A2.ignored", "C15": "A2.ignored"}, [(NV, "defvjp(anp.tril, lambda ans, x, k=0: unbroadcast_f(x, lambda g: anp.tril(g, k=k)))", "defvjp(anp.tril, lambda ans, x, k=0: unbroadcast_f(x, lambda g: anp.tril(g)))")]),
     ("prod-jvp-swallows-options", {"C02": "A2.ignored", "C15": "A2.ignored"}, [(NJ, "    anp.prod, lambda g, ans, x, axis=None, keepdims=False: ans * anp.sum(g / x, axis=axis, keepdims=keepdims)", "    anp.prod, lambda g, ans, x, axis=None, keepdims=False, **options: ans * anp.sum(g / x, axis=axis, keepdims=keepdims)")]),
     ("roll-vjp-last-axis-when-none", {"C01": "A7.none"}, [(NV, "defvjp(anp.roll, lambda ans, x, shift, axis=None: lambda g: anp.roll(g, -shift, axis=axis))", "defvjp(anp.roll, lambda ans, x, shift, axis=None: lambda g: anp.roll(g, -shift, axis=-1 if axis is None else axis))")]),
     ("prod-jvp-full-shaped-for-single-element", {"C02": "A3.reduce"}, [(NJ, "    anp.prod, lambda g, ans, x, axis=None, keepdims=False: ans * anp.sum(g / x, axis=axis, keepdims=keepdims)", "    anp.prod, lambda g, ans, x, axis=None, keepdims=False: g if anp.size(x) == 1 else ans * anp.sum(g / x, axis=axis, keepdims=keepdims)")]),
@@ -275,6 +275,10 @@ MUTANTS = [
     ("solve-gradient-reduced-to-the-other-argument", {"C05": "A3.vjp"}, [(LA, "        return lambda g: unbroadcast(match_complex(b, solve(T(a), g)), anp.metadata(b))", "        return lambda g: unbroadcast(match_complex(b, solve(T(a), g)), anp.metadata(a))")]),
     ("linspace-gradient-not-reduced-to-its-endpoint", {"C05": "A3.vjp", "C01": "A3.vjp"}, [(NV, "    lambda ans, start, stop, num: unbroadcast_f(\n        stop, lambda g: anp.tensordot(anp.linspace(0.0, 1.0, num), g, 1)\n    ),", "    lambda ans, start, stop, num: lambda g: anp.tensordot(anp.linspace(0.0, 1.0, num), g, 1),")]),
     ("linspace-tangent-against-a-scalar-zero", {"C02": "A3.jvp"}, [(NJ, "    lambda g, ans, start, stop, *args, **kwargs: anp.linspace(\n        g, anp.zeros(anp.shape(stop)), *args, **kwargs\n    ),", "    lambda g, ans, start, stop, *args, **kwargs: anp.linspace(g, 0.0, *args, **kwargs),")]),
+    ("tril-gradient-not-reduced-to-a-vector-operand", {"C05": "A3.restore", "C01": "A3.restore"}, [(NV, "defvjp(anp.tril, lambda ans, x, k=0: unbroadcast_f(x, lambda g: anp.tril(g, k=k)))", "defvjp(anp.tril, lambda ans, x, k=0: lambda g: anp.tril(g, k=k))")]),
+    ("outer-gradient-left-flat", {"C05": "A3.restore"}, [(NV, "    lambda ans, a, b: lambda g: match_complex(a, anp.reshape(anp.dot(g, anp.ravel(b)), anp.shape(a))),", "    lambda ans, a, b: lambda g: match_complex(a, anp.dot(g, anp.ravel(b))),")]),
+    ("outer-gradient-reshaped-to-the-other-argument", {"C05": "A3.restore"}, [(NV, "    lambda ans, a, b: lambda g: match_complex(a, anp.reshape(anp.dot(g, anp.ravel(b)), anp.shape(a))),", "    lambda ans, a, b: lambda g: match_complex(a, anp.reshape(anp.dot(g, anp.ravel(b)), anp.shape(b))),")]),
+    ("diag-gradient-square-for-every-matrix", {"C05": "A3.restore", "C01": "A3.restore"}, [(NV, "        padded = anp.pad(square, ((0, max(rows - size, 0)), (0, max(cols - size, 0))), mode=\"constant\")\n        return padded[:rows, :cols]", "        return square")]),
 ]
 
 BENIGN = [
@@ -287,7 +291,7 @@ BENIGN = [
     ("dictbox-iter-builtin", [(BU, "    def __iter__(self):\n        return self._value.__iter__()", "    def __iter__(self):\n        return iter(self._value)")]),
     ("trace-warning-under-catch-warnings", [(TR, "            warnings.warn(\"Output seems independent of input.\")", "            with warnings.catch_warnings():\n                warnings.simplefilter(\"always\")\n                warnings.warn(\"Output seems independent of input.\")")]),
     ("det-vjp-einsum-spelling", [(LA, "defvjp(det, lambda ans, x: lambda g: add2d(g) * add2d(ans) * T(inv(x)))", "defvjp(det, lambda ans, x: lambda g: add2d(g * ans) * T(inv(x)))")]),
-    ("tril-vjp-k-positional", [(NV, "defvjp(anp.tril, lambda ans, x, k=0: lambda g: anp.tril(g, k=k))", "defvjp(anp.tril, lambda ans, x, k=0: lambda g: anp.tril(g, k))")]),
+    ("tril-vjp-k-positional", [(NV, "defvjp(anp.tril, lambda ans, x, k=0: unbroadcast_f(x, lambda g: anp.tril(g, k=k)))", "defvjp(anp.tril, lambda ans, x, k=0: unbroadcast_f(x, lambda g: anp.tril(g, k)))")]),
     ("roll-vjp-def-form", [(NV, "defvjp(anp.roll, lambda ans, x, shift, axis=None: lambda g: anp.roll(g, -shift, axis=axis))", "def _grad_roll(ans, x, shift, axis=None):\n    back = -shift\n    if axis is None:\n        return lambda g: anp.reshape(anp.roll(anp.ravel(g), back, 0), anp.shape(x))\n    return lambda g: anp.roll(g, back, axis)\n\n\ndefvjp(anp.roll, _grad_roll)")]),
     ("chooser-jvp-scalar-test-by-ndim", [(NJ, "    if anp.isscalar(x):\n        return g\n    if not keepdims:", "    if anp.ndim(x) == 0:\n        return g\n    if not keepdims:")]),
     ("clip-vjp-mask-strict-inequalities", [(NV, "unbroadcast_f(x, lambda g: g * anp.logical_and(ans != a_min, ans != a_max))", "unbroadcast_f(x, lambda g: g * anp.logical_and(ans > a_min, ans < a_max))")]),
@@ -364,6 +368,8 @@ BENIGN = [
     ("sum-jvp-options-merged-into-one-dict", [(NJ, "    return anp.sum(g, axis=axis, dtype=dtype, keepdims=keepdims, **kwargs)", "    options = dict(kwargs, axis=axis, dtype=dtype, keepdims=keepdims)\n    return anp.sum(g, **options)")]),
     ("solve-gradient-unbroadcast-via-local-metadata", [(LA, "    vector_rhs = anp.ndim(ans) == anp.ndim(a) - 1\n", "    vector_rhs = anp.ndim(ans) == anp.ndim(a) - 1\n    a_meta, b_meta = anp.metadata(a), anp.metadata(b)\n"), (LA, "        return lambda g: unbroadcast(match_complex(b, solve(T(a), g)), anp.metadata(b))", "        return lambda g: unbroadcast(match_complex(b, solve(T(a), g)), b_meta)")]),
     ("linspace-tangent-against-zeros-like-the-other-endpoint", [(NJ, "    lambda g, ans, start, stop, *args, **kwargs: anp.linspace(\n        g, anp.zeros(anp.shape(stop)), *args, **kwargs\n    ),", "    lambda g, ans, start, stop, *args, **kwargs: anp.linspace(g, anp.zeros_like(stop), *args, **kwargs),")]),
+    ("tril-triu-rules-from-one-factory", [(NV, "defvjp(anp.triu, lambda ans, x, k=0: unbroadcast_f(x, lambda g: anp.triu(g, k=k)))\ndefvjp(anp.tril, lambda ans, x, k=0: unbroadcast_f(x, lambda g: anp.tril(g, k=k)))", "def _triangle_rule(tri):\n    return lambda ans, x, k=0: unbroadcast_f(x, partial(tri, k=k))\n\n\nfor _tri in (anp.triu, anp.tril):\n    defvjp(_tri, _triangle_rule(_tri))")]),
+    ("diag-crop-written-with-slice-objects", [(NV, "        return padded[:rows, :cols]", "        return padded[slice(None, rows), slice(None, cols)]")]),
 ]
 
 
